@@ -21,7 +21,7 @@ def divisors(n):
     return [d for d in range(1, n + 1) if n % d == 0]
 
 
-def gen_spec(rng, max_levels=3, bounds_pool=(2, 3, 4, 6, 8), fancy=True):
+def gen_spec(rng, max_levels=3, bounds_pool=(2, 3, 4, 6, 8), fancy=True, min_levels=2):
     nv = rng.choice([2, 3, 3])
     bounds = [rng.choice(bounds_pool) for _ in range(nv)]
     # tensors: matmul-like by default, sometimes random relevance
@@ -34,7 +34,7 @@ def gen_spec(rng, max_levels=3, bounds_pool=(2, 3, 4, 6, 8), fancy=True):
             if all(any(r) for r in rels) and all(any(r[v] for r in rels) for v in range(nv)):
                 break
     tensors = [{"name": "ABCD"[i], "rel": r, "out": i == len(rels) - 1, "bpv": rng.choice([8, 8, 4, 16]) if fancy else 8} for i, r in enumerate(rels)]
-    nl = rng.randint(2, max_levels)
+    nl = rng.randint(min(min_levels, max_levels), max_levels)
     levels = []
     for l in range(nl):
         lv = {"name": LEVELS[l], "skip": rng.random() < 0.8 if fancy else True,
